@@ -1,5 +1,5 @@
 #![feature(allocator_api)]
-// Unit BASIC: simple documented functions — get, size, ?, default, and, or, not, xor, first, last, all, any, pop, push, put, insert_if_absent, replace_if_exists, entries, range, push_front, pop_first, the seven type checks and five casts, = != concat join (C04, C05)
+// Unit BASIC: simple documented functions — get, size, ?, default, and, or, not, xor, first, last, all, any, pop, push, put, insert_if_absent, replace_if_exists, entries, range, push_front, pop_first, the seven type checks and five casts, = != concat join keys values (C04, C05)
 use vstd::prelude::*;
 use std::rc::Rc;
 use vstd::std_specs::iter::IteratorSpec;
@@ -923,6 +923,65 @@ impl Get for Impl {
                                         assert(Seq::<char>::empty().add(to_add@) =~= to_add@);
                                         assert(str@ == (if it.index@ == 0 { to_add@ } else { str0.add(sepetator@).add(to_add@) }));
                                     }
+//@@ endfn
+}
+}
+
+// keys() / values() of the IndexMap stand-in with the adapter chains the code uses: entries in insertion order
+pub struct ImKeys<'a> { pub m: &'a IndexMap<String, JsonValue> }
+pub struct ImKeysCloned<'a> { pub m: &'a IndexMap<String, JsonValue> }
+pub struct ImKeysJson<'a> { pub m: &'a IndexMap<String, JsonValue> }
+pub struct ImValues<'a> { pub m: &'a IndexMap<String, JsonValue> }
+pub struct ImValuesCloned<'a> { pub m: &'a IndexMap<String, JsonValue> }
+impl IndexMap<String, JsonValue> {
+    pub fn keys(&self) -> (r: ImKeys<'_>) ensures r.m == self { ImKeys { m: self } }
+    pub fn values(&self) -> (r: ImValues<'_>) ensures r.m == self { ImValues { m: self } }
+}
+impl<'a> ImKeys<'a> { pub fn cloned(self) -> (r: ImKeysCloned<'a>) ensures r.m == self.m { ImKeysCloned { m: self.m } } }
+impl<'a> ImKeysCloned<'a> { pub fn map_json_string(self) -> (r: ImKeysJson<'a>) ensures r.m == self.m { ImKeysJson { m: self.m } } }
+pub open spec fn key_values(e: Seq<(String, JsonValue)>) -> Seq<JsonValue> { Seq::new(e.len(), |i: int| JsonValue::String(e[i].0)) }
+pub open spec fn member_values(e: Seq<(String, JsonValue)>) -> Seq<JsonValue> { Seq::new(e.len(), |i: int| e[i].1) }
+impl<'a> ImKeysJson<'a> {
+    #[verifier::external_body]
+    pub fn collect(self) -> (r: Vec<JsonValue>) ensures r@ == key_values(self.m.entries()) { unimplemented!() }
+}
+impl<'a> ImValues<'a> { pub fn cloned(self) -> (r: ImValuesCloned<'a>) ensures r.m == self.m { ImValuesCloned { m: self.m } } }
+impl<'a> ImValuesCloned<'a> {
+    #[verifier::external_body]
+    pub fn collect(self) -> (r: Vec<JsonValue>) ensures r@ == member_values(self.m.entries()) { unimplemented!() }
+}
+
+pub mod f_keys {
+use super::*;
+broadcast use {group_json_names, cl::group_clone_is_copy, group_json_eq, axiom_byte_len};
+//@@ item src/functions/object/object_to_list/keys.rs :: fn get :: struct Impl
+//@@ rewrite pub_tuple pub_struct
+//@@ enditem
+impl Get for Impl {
+    open spec fn get_spec(&self, value: &Context) -> Option<JsonValue> {
+        match arg(self.0@, value, 0) { Some(JsonValue::Object(m)) => Some(json_array(key_values(m.entries()))), _ => None }
+    }
+//@@ fn f.keys = src/functions/object/object_to_list/keys.rs :: fn get :: impl Get for Impl :: fn get
+//@@ safety C04 C05
+//@@ rewrite map_json_string
+//@@ post doc "(keys o): the member names of the object as strings, in member order; nothing for a non-object"
+//@@ endfn
+}
+}
+
+pub mod f_values {
+use super::*;
+broadcast use {group_json_names, cl::group_clone_is_copy, group_json_eq, axiom_byte_len};
+//@@ item src/functions/object/object_to_list/values.rs :: fn get :: struct Impl
+//@@ rewrite pub_tuple pub_struct
+//@@ enditem
+impl Get for Impl {
+    open spec fn get_spec(&self, value: &Context) -> Option<JsonValue> {
+        match arg(self.0@, value, 0) { Some(JsonValue::Object(m)) => Some(json_array(member_values(m.entries()))), _ => None }
+    }
+//@@ fn f.values = src/functions/object/object_to_list/values.rs :: fn get :: impl Get for Impl :: fn get
+//@@ safety C04 C05
+//@@ post doc "(values o): the member values of the object, in member order; nothing for a non-object"
 //@@ endfn
 }
 }
